@@ -170,6 +170,29 @@ def search(ctx):
                 ctx.violation("C07:mutates-input", "an operation modified its detector or scatterer argument", dict(kind="mutate", **info))
         except Exception as ex:
             ctx.violation("C07:raises:%s:%s" % (name, type(ex).__name__), "%s raised %r" % (name, ex), dict(kind="raises", **info))
+    # point lists in which consecutive points share exactly the same direction from the particle (axial scan, ray through the
+    # centre with dyadic steps) or the same distance: each value equals the one-point calculation
+    for name, mk, sc in [("Mie", lambda: Mie(), T.rand_sphere(rng)), ("Mie(False,False)", lambda: Mie(False, False), T.rand_sphere(rng))]:
+        try:
+            c = np.ravel(sc.center).astype(float)
+            dirv = np.array([0.5, 0.25, -1.0])
+            lists = {"axial scan": np.array([[c[0], c[1], z] for z in (0.0, 1.0, 2.5, -1.0, 0.5)]),
+                     "ray through the centre": np.array([c + t * dirv for t in (1.0, 2.0, 4.0, 8.0, 3.0)]),
+                     "ring at equal distance": np.array([[c[0] + 2 * math.cos(a), c[1] + 2 * math.sin(a), 0.0] for a in (0.0, 1.0, 2.0, 4.0)])}
+            for lname, P in lists.items():
+                ctx.tried("point-list-coincidences", (name, lname))
+                full = calc_field(detector_points(x=P[:, 0], y=P[:, 1], z=P[:, 2]), sc, illum_polarization=(0.6, 0.8), theory=mk(), **OPT)
+                full = full.transpose('point', 'vector').values
+                for j in range(len(P)):
+                    one = calc_field(detector_points(x=P[j:j + 1, 0], y=P[j:j + 1, 1], z=P[j:j + 1, 2]), sc, illum_polarization=(0.6, 0.8), theory=mk(), **OPT)
+                    one = one.transpose('point', 'vector').values[0]
+                    if not (np.abs(full[j] - one).max() <= 1e-12 * max(1e-30, np.abs(one).max())):
+                        ctx.violation("C07:point-list:%s" % name, "%s: point %d of the list gives a different field than the same point alone (rel %.3g, %s)" % (
+                            lname, j, np.abs(full[j] - one).max() / max(1e-30, np.abs(one).max()), name),
+                            dict(kind="point-list", theory=name, scatterer=repr(sc), points=P.tolist(), which=lname))
+                        break
+        except Exception as ex:
+            ctx.violation("C07:raises:%s:%s" % (name, type(ex).__name__), "%s on a coincident point list raised %r" % (name, ex), dict(kind="raises", theory=name))
     # every theory once on a detector of several hundred pixels: a pixel's value does not depend on how many pixels are requested
     from holopy.scattering import Multisphere, Tmatrix, MieLens, Spheres
     from holopy.scattering.scatterer import Spheroid
